@@ -351,6 +351,30 @@ def run(rep, tier="quick", replay=None, evidence_dir=None, collect_only=False):
             else:
                 rep.ob("C11.R4", "%s -> %s passes a derived namespace" % (who, cal.path.split("::")[-1]), who not in ("schema::parser::Parser::fetch_schema_ref", "schema::parser::Parser::parse_input_schemas") or cal.path.endswith("new_with_enclosing_namespace"),
                        "an input schema is a top-level schema and must be parsed without the referrer's namespace (passes %s)" % desc, b.loc(bi))
+                # where the namespace comes from: the caller's own namespace parameter, the namespace of a parsed name, or
+                # `<own attribute>.or(<the caller's namespace>)`; the JSON attribute alone forgets the inherited namespace
+
+                def from_param(op):
+                    if op.get("k") not in ("copy", "move"):
+                        return False
+                    r_ = b.resolve_operand(op)
+                    return bool(r_ and 1 <= r_[0] <= b.argc)
+
+                def derived(op, depth=0):
+                    if from_param(op):
+                        return True
+                    cr_ = b.call_result_of(op)
+                    if not cr_ or depth > 3:
+                        return False
+                    cn = callee_names(cr_[1]["func"])[0]
+                    if cn.endswith("Name::namespace"):
+                        return True
+                    if cn in ("std::option::Option::<T>::or", "std::option::Option::<T>::or_else", "std::option::Option::<T>::as_deref", "std::option::Option::<T>::as_ref",
+                              "std::ops::Deref::deref", "std::clone::Clone::clone", "std::convert::Into::into", "std::option::Option::<T>::map", "std::option::Option::<T>::cloned"):
+                        return any(derived(x, depth + 1) for x in cr_[1]["args"])
+                    return False
+                rep.ob("C11.R4", "%s -> %s: the namespace handed down derives from the caller's namespace or from a parsed name" % (who, cal.path.split("::")[-1]), derived(a),
+                       "the nested definition is parsed under %s, which ignores the namespace it should inherit from the enclosing definition: its full name changes (references, canonical form and fingerprints with it)" % desc, b.loc(bi))
     # aliases are qualified with the namespace of the type's own full name (not with the JSON `namespace` attribute or the
     # enclosing namespace: a dotted name carries its namespace in the name)
     fa = prog.bodies.get(P + "fix_aliases_namespace")
@@ -430,6 +454,65 @@ def run(rep, tier="quick", replay=None, evidence_dir=None, collect_only=False):
         rep.ob("C11.R3", "panic-site budget kind=%s" % kind, ok,
                ("%d sites of kind %s, table allows %d; functions above their recorded count: %s" % (len(sites), kind, allowed, "; ".join(over))) if not ok else "%d sites <= %d allowed" % (len(sites), allowed),
                over[0].split(" at ")[-1] if over else "")
+
+    # ------------------------------------------------------------ R5 no silent filtering of structural JSON arrays
+    rep.rule("C11.R5", "the parser never drops an ill-typed element of a structural JSON array (record fields, enum symbols): kind tests on array elements end in an error, not in a filter")
+    with open(os.path.join(common.VERIF, "rules", "tables", "c11_lenient_filters.toml"), "rb") as fh:
+        lenient = tomllib.load(fh).get("lenient", [])
+    FILTERS = ("std::iter::Iterator::flat_map", "std::iter::Iterator::filter_map", "std::iter::Iterator::flatten", "std::iter::Iterator::filter")
+
+    def kind_tests(body, depth=0):
+        out = [callee_names(t["func"])[0] for _, t in body.calls() if callee_names(t["func"])[0].startswith("serde_json::Value::as_")]
+        if depth < 2:
+            for _, _, st in body.stmts():
+                if st["s"] == "assign" and st["rv"]["r"] == "agg" and st["rv"].get("ak") == "closure" and st["rv"].get("def") in prog.bodies:
+                    out += kind_tests(prog.bodies[st["rv"]["def"]], depth + 1)
+        return out
+    nfil = 0
+    for k, b in prog.bodies.items():
+        if b.crate != "apache_avro" or not (b.file.startswith("avro/src/schema/") or b.file.endswith("avro/src/util.rs")):
+            continue
+        owner = b.path if b.kind != "Closure" else (b.parent or b.path)
+        for bi, t in b.calls():
+            nm = callee_names(t["func"])[0]
+            if nm not in FILTERS:
+                continue
+            tests = []
+            for a in t["args"]:
+                if a.get("k") == "const" and str(a.get("fn", "")).startswith("serde_json::Value::as_"):
+                    tests.append(a["fn"])
+                if a.get("k") in ("copy", "move") and not a["pl"]["p"]:
+                    sd = b.single_def(a["pl"]["l"])
+                    if sd and sd[2] == "assign" and sd[3]["r"] == "agg" and sd[3].get("ak") == "closure" and sd[3].get("def") in prog.bodies:
+                        tests += kind_tests(prog.bodies[sd[3]["def"]])
+            if nm.endswith("flatten"):
+                # flatten of an iterator of Options produced by a kind test one step earlier
+                cr = b.call_result_of(t["args"][0]) if t["args"] else None
+                if cr:
+                    for a in cr[1]["args"]:
+                        if a.get("k") == "const" and str(a.get("fn", "")).startswith("serde_json::Value::as_"):
+                            tests.append(a["fn"])
+                        if a.get("k") in ("copy", "move") and not a["pl"]["p"]:
+                            sd = b.single_def(a["pl"]["l"])
+                            if sd and sd[2] == "assign" and sd[3]["r"] == "agg" and sd[3].get("ak") == "closure" and sd[3].get("def") in prog.bodies:
+                                tests += kind_tests(prog.bodies[sd[3]["def"]])
+            if not tests:
+                continue
+            nfil += 1
+            listed = [e for e in lenient if e["function"] == owner]
+            rep.ob("C11.R5", "%s: %s over JSON elements tested with %s is a listed lenient attribute" % (owner, nm.split("::")[-1], sorted(set(x.split("::")[-1] for x in tests))), bool(listed),
+                   "elements of the wrong JSON kind are silently dropped: a schema text with a malformed entry is accepted as if the entry were absent (for record fields or enum symbols this changes the schema)", b.loc(bi))
+    rep.analysed["filtering adapters over JSON kind tests in the parser"] = nfil
+    for fn, err in (("schema::parser::Parser::parse_enum", "GetEnumSymbols"), ("schema::parser::Parser::parse_record", "GetRecordFieldsJson")):
+        b0 = prog.bodies.get(fn)
+        if b0 is None:
+            rep.anchor_error("C11.R5", fn)
+            continue
+        fam = prog.with_closures(b0)
+        has = any(st["s"] == "assign" and st["rv"]["r"] == "agg" and st["rv"].get("adt") == "error::Details" and st["rv"].get("variant") == err for bb in fam for _, _, st in bb.stmts())
+        viafn = any(a.get("k") == "const" and str(a.get("ctor", a.get("fn", ""))).endswith("Details::" + err) for bb in fam for _, t in bb.calls() for a in t["args"])
+        tests = [x for bb in fam for x in kind_tests(bb, 2)]
+        rep.ob("C11.R5", "%s: an element of the wrong JSON kind is an error (%s) and the elements are kind-tested" % (fn.split("::")[-1], err), (has or viafn) and bool(tests), "", b0.loc())
 
     if collect_only:
         return rep
